@@ -149,6 +149,9 @@ func mixedGraphConfigN(n int, kind func(i, j int) int, sharedNames bool) *cfg.Co
 			switch kind(i, j) {
 			case ckAt:
 				si.Args = append(si.Args, cfg.Str("@"+sj.Name))
+				if sharedNames && (i+j)%2 == 0 { // the same service referenced twice, in different positions
+					si.Calls = append(si.Calls, cfg.Call{Method: "Set", Args: []cfg.Val{cfg.Str("@" + sj.Name), cfg.Str("@" + sj.Name)}})
+				}
 			case ckTagged:
 				t := fmt.Sprintf("t%d", j)
 				if sharedNames {
@@ -189,7 +192,10 @@ func checkC07(c *Ctx) error {
 			any := false
 			for j := 0; j < 3; j++ {
 				if m&(1<<(i*3+j)) != 0 {
-					v += fmt.Sprintf("%%p%d%%", j)
+					// the same parameter is referenced 1 to 4 times in one pattern: the relation does not change
+					for k := 0; k <= (m+i+j)%4; k++ {
+						v += fmt.Sprintf("%%p%d%%.", j)
+					}
 					any = true
 				}
 			}
@@ -249,7 +255,9 @@ func checkC07(c *Ctx) error {
 			v := "v"
 			for j := 0; j < np; j++ {
 				if r.Float64() < p {
-					v += fmt.Sprintf("-%%q%d%%", j)
+					for k := 0; k <= r.Intn(4); k++ {
+						v += fmt.Sprintf("-%%q%d%%", j)
+					}
 				}
 			}
 			conf.Params = append(conf.Params, cfg.KV{K: fmt.Sprintf("q%d", i), V: cfg.Str(v)})
